@@ -172,6 +172,18 @@ inline Value handleRowLeg(const Value &v) {
     if (leg.usedSpace() != used || leg.remainingSpace() != (e - b) - used) why.push_back("used/remaining space");
   }
   std::vector<int> pl = leg.getPlacement();
+  {
+    // the same history on a legalizer that was used before and emptied with clear(): nothing of the earlier use may survive
+    RowLegalizer used(b, e);
+    for (size_t i = cells.size(); i-- > 0;) {
+      int w = (int)cells[i][0].asInt(), t = (int)cells[i][1].asInt();
+      used.push(w, b + (e - b) - (t - b));   // the cells in reverse order at mirrored targets
+    }
+    used.clear();
+    std::vector<long long> costs2;
+    for (size_t i = 0; i < cells.size(); ++i) costs2.push_back(used.push((int)cells[i][0].asInt(), (int)cells[i][1].asInt()));
+    if (costs2 != costs || used.getPlacement() != pl) why.push_back("state of an earlier use survives clear()");
+  }
   long long plCost = 0;
   if (pl.size() != cells.size()) why.push_back("placement size");
   else {
